@@ -48,6 +48,7 @@ type RunOutcome struct {
 	SitePark   []uint32
 	Leak       bool
 	StateSigs  []string
+	ReplayFor  map[string]*ReplayFile // per-fingerprint replay (engines that run several executions per evaluation)
 }
 
 type WorkerSummary struct {
@@ -301,6 +302,9 @@ func WorkerMain(t *testing.T) {
 				continue
 			}
 			rf := o.Replay
+			if r2 := o.ReplayFor[fp]; r2 != nil {
+				rf = r2
+			}
 			rf.Seed, rf.Worker, rf.Run = seed, worker, run
 			vv := v
 			rf.Violation = &vv
